@@ -599,7 +599,13 @@ func setFromParamVal(buf []byte, pf *PFromBody) ErrorHdr {
 			bytescase.CmpEq(buf[pf.pstart:pf.pend], expires[:]) {
 			pf.HasExpires = true
 			exp, e := pUInt64Val(buf[pf.vstart:pf.vend])
-			if exp < uint64(^uint32(0)) {
+			if e == ErrHdrValNotNumber {
+				// not a number (e.g. "36x"): do not report the leading
+				// digits as the value, leave expires unset and flag it
+				pf.HasExpires = false
+				pf.ParamErr = e
+				pf.ErrOffs = OffsT(pf.vstart)
+			} else if exp < uint64(^uint32(0)) {
 				pf.Expires = uint32(exp)
 			} else {
 				// truncate to max. uint32 (rfc3261)
